@@ -299,6 +299,7 @@ func main() {
 		os.Exit(2)
 	}
 	repo, anchorsFile, outJSON, leanDir := os.Args[1], os.Args[2], os.Args[3], os.Args[4]
+	varsFile = filepath.Join(filepath.Dir(anchorsFile), "vars.json")
 	var anchors []Anchor
 	b, err := os.ReadFile(anchorsFile)
 	if err != nil {
